@@ -3,7 +3,9 @@ package main
 // C17 — databases crossing the 1 GiB lock page replicate and restore correctly.
 
 import (
+	"fmt"
 	"go/token"
+	"strings"
 
 	"golang.org/x/tools/go/ssa"
 )
@@ -21,6 +23,7 @@ func init() {
 }
 
 func runC17(c *Ctx) {
+	c17DerivedFromPageSize(c)
 	offsetWidthRule(c, "R2-offsets-64bit")
 	applyResizeRule(c, "R3-follower-resized-to-commit")
 	pageCopyRules(c, "R1-dense-loops-skip-lock-page", false)
@@ -118,4 +121,105 @@ func runC17(c *Ctx) {
 			c.floor(rule, z, 1, "zeroing of the lock page buffer in DecodeDatabaseTo")
 		}
 	}
+}
+
+// c17DerivedFromPageSize: the lock page number depends on the page size, and the page size
+// is re-read every time a database is (re)opened.  A value derived from DB.pageSize that is
+// kept in a field the reference struct did not have (a memo) is refreshed wherever
+// DB.pageSize is assigned; otherwise a re-opened database with another page size keeps the
+// old lock page number and the real lock page is no longer skipped.
+func c17DerivedFromPageSize(c *Ctx) {
+	const rule = "R4-page-size-derived-state"
+	if refFields == nil {
+		refFields = loadAnchorFields()
+	}
+	if len(refFields) == 0 {
+		return
+	}
+	var dependsOnPageSize func(v ssa.Value, d int) bool
+	dependsOnPageSize = func(v ssa.Value, d int) bool {
+		if v == nil || d > 4 {
+			return false
+		}
+		if vFieldLoad("DB.pageSize", nil)(v) {
+			return true
+		}
+		for _, o := range origins(v) {
+			switch x := o.(type) {
+			case *ssa.Call:
+				for _, a := range x.Call.Args {
+					if dependsOnPageSize(a, d+1) {
+						return true
+					}
+				}
+			case *ssa.BinOp:
+				if dependsOnPageSize(x.X, d+1) || dependsOnPageSize(x.Y, d+1) {
+					return true
+				}
+			case *ssa.Convert:
+				if dependsOnPageSize(x.X, d+1) {
+					return true
+				}
+			}
+		}
+		return false
+	}
+	memo := map[string]bool{}
+	for _, g := range c.P.ProdFuncs() {
+		for _, b := range g.Blocks {
+			for _, in := range b.Instrs {
+				st, ok := in.(*ssa.Store)
+				if !ok {
+					continue
+				}
+				fa, ok := st.Addr.(*ssa.FieldAddr)
+				if !ok {
+					continue
+				}
+				nm := fieldAddrName(fa)
+				if !strings.HasPrefix(nm, "DB.") || refFields[nm] {
+					continue
+				}
+				if dependsOnPageSize(st.Val, 0) {
+					memo[nm] = true
+				}
+			}
+		}
+	}
+	for nm := range memo {
+		for _, g := range c.P.ProdFuncs() {
+			if g.Parent() != nil {
+				continue
+			}
+			assigns := len(storesToField(g, "DB.pageSize")) > 0
+			// ... or hands out its address (`Scan(&db.pageSize)`)
+			for _, h := range withClosures(g) {
+				for _, b := range h.Blocks {
+					for _, in := range b.Instrs {
+						fa, ok := in.(*ssa.FieldAddr)
+						if !ok || fieldAddrName(fa) != "DB.pageSize" || fa.Referrers() == nil {
+							continue
+						}
+						for _, r := range *fa.Referrers() {
+							switch x := r.(type) {
+							case *ssa.UnOp, *ssa.DebugRef:
+							case *ssa.Store:
+								if x.Addr != ssa.Value(fa) {
+									assigns = true
+								}
+							default:
+								assigns = true
+							}
+						}
+					}
+				}
+			}
+			if !assigns {
+				continue
+			}
+			c.check(len(storesToFieldDeep(g, nm)) > 0, rule, fnName(g)+": assigns DB.pageSize and refreshes "+nm+" derived from it", c.P.Pos(g.Pos()), "both stored",
+				nm+" caches a value computed from DB.pageSize but is not refreshed where the page size is assigned: after a re-open with another page size the stale value is used (the lock page is computed for the old page size)")
+		}
+	}
+	c.ok(rule, "fields of DB derived from DB.pageSize and kept across calls", "", fmt.Sprintf("%d such field(s) on this tree", len(memo)))
 }
